@@ -682,7 +682,8 @@ func genC17(o *out, r *rng, thorough bool) {
 	}
 	members := []string{"", "{}", "{ }", " {\n} ", `{"id":1}`, `{"properties":{"a":1}}`, `{"properties":null,"id":"x"}`, `{"feature":1}`,
 		`{"feature":1,"id":2}`, `{"a":1,"feature":{"x":[1,2]},"b":2}`, `[1,2]`, `"str"`, `5`, `{bad`, `{"a":1} x`, `{"id": 1 , "tags" : [ 1 , 2 ] }`,
-		`{"id":"éé","n":1.50}`, `{"feature":1,"feature":2}`, `  {"bbox":[1,2,3,4]}  `, `null`, `{"properties" : { } }`}
+		`{"id":"éé","n":1.50}`, `{"feature":1,"feature":2}`, `  {"bbox":[1,2,3,4]}  `, `null`, `{"properties" : { } }`,
+		"{ \"a\" : \"q\\\"uote\" , \"b\" : [ 1 , 2 ] }", " {\"k\\\"ey\" :\t\"v\\\\\" ,\n\"n\" : { \"x\" : \"\\\\\\\"\" } } "}
 	ff := func() string {
 		if r.coin(0.4) {
 			return fltTok(specialFloats[r.intn(len(specialFloats))])
